@@ -31,6 +31,8 @@ class Bench:
         if self.extra_fire is not None and self.extra_fire(act):
             return
         t = act["t"]
+        if t in self.tasks and self.tasks[t].done():
+            return          # (drifted run) nothing to cancel any more
         self.rec.emit(ev="creq", t=t, kind="scope" if act["c"] == "cancel" else "native")
         if act["c"] == "cancel":
             self.scopes[t].cancel()
